@@ -243,8 +243,11 @@ TRUST = ["none", "ca_certs=A", "ca_certs=B", "ca_cert_path=A", "env-file=A", "en
 SNI = ["unset", "localhost", "other.test", "127.0.0.1"]
 CERTS = ["leaf-A-local", "leaf-A-other", "leaf-A-dnsonly", "leaf-B-local", "leaf-B-other", "leaf-self-local", "leaf-self-other"]
 ROUTE = ["direct", "proxy"]
-URLHOST = ["localhost", "127.0.0.1"]
-SSLVER = ["unset", "PROTOCOL_TLS", "PROTOCOL_TLSv1_2", "PROTOCOL_TLS_CLIENT"]
+# alias.test: a name the resolver knows as an alias of localhost (canonical name "localhost", address 127.0.0.1); no certificate names it
+URLHOST = ["localhost", "127.0.0.1", "alias.test"]
+# the last two are legacy versions the installed OpenSSL may refuse to speak at all: only "never accepted unverified" is judged for them
+SSLVER = ["unset", "PROTOCOL_TLS", "PROTOCOL_TLSv1_2", "PROTOCOL_TLS_CLIENT", "PROTOCOL_TLSv1_1", "PROTOCOL_TLSv1"]
+LEGACY = ("PROTOCOL_TLSv1_1", "PROTOCOL_TLSv1")
 SANS = {"local": {"localhost", "127.0.0.1"}, "other": {"other.test"}, "dnsonly": {"localhost"}}
 
 
@@ -281,6 +284,7 @@ def run(res, tier, seed, shard, nshards):
         return
     rng = random.Random((seed << 8) ^ shard ^ 0xC11)
     H.scrub_env()
+    shim.real_aliases["alias.test"] = ("127.0.0.1", "localhost")
     os.environ.pop("SSL_CERT_FILE", None)
     os.environ.pop("SSL_CERT_DIR", None)
     d = os.path.join(core.OUT_DIR, "tls", f"{os.getpid()}-{shard}")
@@ -314,6 +318,10 @@ def run(res, tier, seed, shard, nshards):
                     essential.append(("unset", True, "ca_certs=A", "127.0.0.1", cert, route, "localhost", "unset"))
                     for sv in SSLVER[1:]:
                         essential.append(("unset", "unset", "ca_certs=A", "unset", cert, route, "localhost", sv))
+            for cert in ("leaf-A-local", "leaf-A-dnsonly", "leaf-A-other"):
+                for route in ROUTE:
+                    essential.append(("unset", "unset", "ca_certs=A", "unset", cert, route, "alias.test", "unset"))
+                    essential.append(("unset", "unset", "ca_certs=A", "localhost", cert, route, "alias.test", "unset"))
             for cert in CERTS:
                 for route in ROUTE:
                     essential.append(("None-value", "unset", "ca_certs=A", "unset", cert, route, "localhost", "unset"))
@@ -468,7 +476,9 @@ def tls_case(res, W, P, servers, proxy, cert_reqs, check_host, trust, sni, cert,
                 default_options=False)
         return
     if exp:
-        if exc is not None:
+        if exc is not None and sslver in LEGACY:
+            res.count("legacy_ssl_version_not_spoken_here")
+        elif exc is not None:
             bad("valid-peer-rejected", f"{type(exc).__name__}: {str(exc)[:160]}", exc_type=type(exc).__name__)
     else:
         if exc is None:
@@ -482,7 +492,11 @@ def tls_case(res, W, P, servers, proxy, cert_reqs, check_host, trust, sni, cert,
         res.count("server_records_checked")
         first = prec["tunnel_first"] if (route == "proxy" and prec is not None) else rec["first"]
         if note == "" or exc is None:
-            if first[:1] != b"\x16" and first != b"":
+            if first[:1] == b"\x15" and first[1:2] == b"\x03" and exc is not None:
+                # a TLS alert record: the client's TLS layer gave up before its first handshake message (e.g. a legacy protocol version
+                # for which the installed OpenSSL has no cipher suite left) - TLS all the same, nothing of the application was sent
+                res.count("first_byte_is_tls_alert_record")
+            elif first[:1] != b"\x16" and first != b"":
                 bad("stream-not-tls", f"first bytes on the {'tunnel' if route == 'proxy' else 'TCP stream'}: {first!r}")
             elif first[:1] == b"\x16":
                 res.count("first_byte_is_tls_record")
@@ -504,6 +518,11 @@ def tls_case(res, W, P, servers, proxy, cert_reqs, check_host, trust, sni, cert,
             mode_ok = r["verify_mode"] == exp_mode or (chain and cert_reqs == "optional" and r["verify_mode"] == int(ssl.CERT_OPTIONAL))
             if not mode_ok or r["check_hostname"] != name or r["server_hostname"] != exp_name:
                 bad("context-settings", f"context used: {r}; expected verify_mode={exp_mode} check_hostname={name} server_hostname={exp_name}")
+            elif r.get("anon_ciphers"):
+                # no option of this case asks for other cipher suites than the default ones: a suite without authentication makes every
+                # verification setting moot (the server then sends no certificate)
+                bad("context-settings", f"the context used offers cipher suites without authentication {r['anon_ciphers'][:4]}... although the caller "
+                    f"configured no ciphers (ssl_version {sslver})", which="anonymous-ciphers")
             else:
                 res.count("context_settings_checked")
     if exp and exc is None:
